@@ -13,7 +13,10 @@ namespace Tx3.Wire
 
 open Cbor
 
-def txt (s : String) : Item := .text s.toUTF8.toList
+/-- The UTF-8 bytes of a string. -/
+def txtBytes (s : String) : Bytes := s.toUTF8.data.toList
+
+def txt (s : String) : Item := .text (txtBytes s)
 
 /-- A struct: map from field names, in declaration order. -/
 def struct (fields : List (String × Item)) : Item := .map (fields.map fun (k, v) => (txt k, v))
